@@ -20,7 +20,14 @@ var c25Opts = []cfgOpt{
 	{"http", "timeout", false, "10", []string{"3", "7", "25", "60", "10"}},
 	{"index", "silent", false, "false", []string{"true", "false"}},
 	{"shell", "max-suggestions", true, "12", []string{"5", "9", "30", "12"}},
+	// a user-defined app that mixes a non-global and a global option (defined by the program's prelude)
+	{"c25app", "local", false, "L0", []string{"L1", "L2", "L0"}},
+	{"c25app", "shared", true, "G0", []string{"G1", "G2", "G0"}},
 }
+
+const c25Prelude = `config define c25app local ({"Description":"scoped option","DataType":"str","Default":"L0","Global":false})
+config define c25app shared ({"Description":"global option","DataType":"str","Default":"G0","Global":true})
+`
 
 type cfgOp struct {
 	Kind string // set get default call if foreach
@@ -151,7 +158,7 @@ func init() {
 	register(&Property{
 		ID:    "C25",
 		Level: "exploration",
-		Rule: "PRNG sequences of 6-45 `config set|get|default` operations over two non-global options (http timeout, index silent) and one global option (shell max-suggestions), spread over up to 3 functions calling each other, if / foreach bodies, with PRNG session-level values preset on the shell process before the program starts; compared with an overlay model (session table + one overlay per function call, not inherited by callees; blocks share their function's overlay; global options always write the session table; `default` writes the declared default into the current scope); " +
+		Rule: "PRNG sequences of 6-45 `config set|get|default` operations over two non-global options (http timeout, index silent), one global option (shell max-suggestions) and a user-defined app that mixes one non-global and one global option (`config define` in the program's prelude), spread over up to 3 functions calling each other, if / foreach bodies, with PRNG session-level values preset on the shell process before the program starts; compared with an overlay model (session table + one overlay per function call, not inherited by callees; blocks share their function's overlay; global options always write the session table; `default` writes the declared default into the current scope); " +
 			"non-trivial = a get in one scope after a set of the same option in another scope; distinct by (session presets, program text)",
 		Assumptions: []string{"the program's top level is itself a function scope in the harness; session-level values are set on the shell process through the Config API", "every case restores the touched options to their defaults when it ends (session writes leak between cases by design)"},
 		Run: func(x *Ctx) {
@@ -166,13 +173,14 @@ func init() {
 				m := &cfgModel{session: map[int]string{}, fns: map[int][]*cfgOp{}}
 				var sess [][]string
 				for oi, o := range c25Opts {
-					if !o.Global && r.Intn(3) == 0 {
+					if !o.Global && o.App != "c25app" && r.Intn(3) == 0 {
 						v := o.Values[r.Intn(len(o.Values))]
 						m.session[oi] = v
 						sess = append(sess, []string{o.App, o.Key, v})
 					}
 				}
 				var src strings.Builder
+				src.WriteString(c25Prelude)
 				for f := nfn; f >= 1; f-- {
 					body := g.ops(1, f, nfn)
 					m.fns[f] = body
@@ -184,7 +192,7 @@ func init() {
 				mainOps := g.ops(2, 0, nfn)
 				cfgSrc(mainOps, id, "", &src)
 				// leave the global option at its default and drop the functions
-				src.WriteString("config default shell max-suggestions\n")
+				src.WriteString("config default shell max-suggestions\nconfig default c25app shared\n")
 				for f := 1; f <= nfn; f++ {
 					fmt.Fprintf(&src, "!function c25f%d_%s\n", f, id)
 				}
